@@ -175,7 +175,7 @@ fn move_columns_block(ncols: usize, nmax: i32, dmax: i32) {
     }
     reach("C15.model_move_columns");
 }
-pub fn h_c15_model_move_columns() { move_columns_block(1, 2, 2) }
+pub fn h_c15_model_move_columns() { move_columns_block(1, 1, 2) }
 pub fn ht_c15_model_move_columns3() { move_columns_block(2, 3, 3) }
 
 // ------------------------------------------------------------------------------------- C33 links (two links, no other furniture)
